@@ -272,3 +272,48 @@ def calls_in(n, qualname=None):
 
 def loc(n):
     return "%s:%s" % (n.get("f", "?"), n.get("l", "?"))
+
+
+def outermost(prog, cands):
+    """Of several candidate functions for one role, the ones that no other candidate calls (a public entry that delegates to
+    private helpers with the same signature shape is the entry)."""
+    ids = {f['id'] for f in cands}
+    called = set()
+    for f in cands:
+        for n in walk(f.get('body')):
+            if isinstance(n, dict) and n.get('k') in ('CallExpr', 'CXXMemberCallExpr'):
+                m = (n.get('callee') or {}).get('m')
+                if m in ids and m != f['id']:
+                    called.add(m)
+    out = [f for f in cands if f['id'] not in called]
+    return out or cands
+
+
+def method_of(prog, rec, name):
+    """The function a call of rec::name() runs when name is not overridden below: rec's own definition, else the nearest base's."""
+    for q in [rec] + list(prog.all_bases(rec)):
+        r = prog.records.get(q)
+        for m in (r['methods'] if r else []):
+            if m['n'] == name and m['id'] in prog.functions and prog.functions[m['id']].get('body') is not None:
+                return prog.functions[m['id']]
+    return None
+
+
+def const_getters(prog, base, names):
+    """{concrete subclass: {name: constant}} for parameterless getters of the subclasses of `base` (evaluated by the interpreter,
+    with the constants the subclass constructor fixes in const base members)."""
+    from . import interp, models
+    out = {}
+    for q in prog.all_subclasses(base):
+        if q not in prog.records:
+            continue
+        for nm in names:
+            f = method_of(prog, q, nm)
+            if f is None:
+                continue
+            I = interp.Interp(prog, models=dict(models.STD_MODELS))
+            I.assume_class = q
+            r = I.run(f, interp.State(), this=interp.P(('ext', 'h'), ()))
+            if len(r) == 1 and r[0][1][0] == 'c':
+                out.setdefault(q, {})[nm] = r[0][1][1]
+    return out
